@@ -40,6 +40,11 @@ def _wrap(v, t):
 def ev(n, env):
     n = strip(n)
     k = n.get("k")
+    b = env.get("__bind__")
+    if b is not None:
+        v = b(n)
+        if v is not None:
+            return v
     if "cv" in n and k not in ("assign", "cassign", "call"):
         return n["cv"]
     if "cvs" in n:
@@ -171,3 +176,113 @@ def ceval(fn, env):
     except _Return as r:
         return r.v
     return None
+
+
+def trace(fn, bind, interesting, env=None):
+    """Partial evaluation of fn's body with the selector expressions bound by `bind(node) -> int | None`
+    and everything else unknown.  Returns the `interesting(call node)` calls that are executed, in
+    order.  A branch whose condition cannot be decided from the selector is an error (Unsupported)
+    when it contains an interesting call, and is skipped otherwise — so the result is exact."""
+    from .facts import walk
+    env = dict(env or {})
+    env["__bind__"] = bind
+    out = []
+
+    def has_interesting(s):
+        return any(x.get("k") in ("call", "construct") and interesting(x) for x in walk(s))
+
+    def record(s):
+        for x in walk(s):
+            if x.get("k") in ("call", "construct") and interesting(x):
+                out.append(x)
+
+    def try_ev(e):
+        try:
+            return ev(e, env)
+        except Unsupported:
+            return None
+
+    def run(s):
+        k = s.get("k")
+        if k == "compound":
+            for x in s.get("body", []):
+                run(x)
+        elif k == "return":
+            if s.get("e"):
+                record(s["e"])
+            raise _Return(None)
+        elif k == "if":
+            record(s["cond"])
+            c = try_ev(s["cond"])
+            if c is None:
+                if has_interesting(s.get("then", {})) or has_interesting(s.get("else", {})):
+                    raise Unsupported("branch at %s decides an effect but does not depend on the selector alone" % s.get("loc"))
+                return
+            if c:
+                run(s["then"])
+            elif "else" in s:
+                run(s["else"])
+        elif k == "decl":
+            for v in s["vars"]:
+                if isinstance(v.get("init"), dict):
+                    record(v["init"])
+                    val = try_ev(v["init"])
+                    if val is not None:
+                        env[v["decl"]] = _wrap(val, v.get("t"))
+        elif k == "switch":
+            val = try_ev(s["cond"])
+            if val is None:
+                if has_interesting(s["body"]):
+                    raise Unsupported("switch at %s decides an effect but is not over the selector" % s.get("loc"))
+                return
+            body = s["body"].get("body", []) if s["body"].get("k") == "compound" else [s["body"]]
+            flat = []
+
+            def flatten(x):
+                if x.get("k") in ("case", "default"):
+                    flat.append(("label", x))
+                    flatten(x["sub"])
+                else:
+                    flat.append(("stmt", x))
+            for x in body:
+                flatten(x)
+            start = None
+            for i, (kind, x) in enumerate(flat):
+                if kind == "label" and x.get("k") == "case" and const_value(x["value"]) == val:
+                    start = i
+                    break
+            if start is None:
+                for i, (kind, x) in enumerate(flat):
+                    if kind == "label" and x.get("k") == "default":
+                        start = i
+                        break
+            if start is None:
+                return
+            try:
+                for kind, x in flat[start:]:
+                    if kind == "stmt":
+                        run(x)
+            except _Break:
+                pass
+        elif k == "break":
+            raise _Break()
+        elif k == "null":
+            pass
+        elif k in ("while", "for", "do", "rangefor", "try"):
+            if has_interesting(s):
+                raise Unsupported("loop at %s contains a tabulated effect" % s.get("loc"))
+        else:
+            record(s)
+            if s.get("k") == "assign":
+                l = strip(s["l"])
+                if l.get("k") == "ref" and l.get("dk") == "local":
+                    val = try_ev(s["r"])
+                    if val is None:
+                        env.pop(l["decl"], None)
+                    else:
+                        env[l["decl"]] = _wrap(val, l.get("t"))
+    try:
+        run(fn.body)
+    except _Return:
+        pass
+    return out
